@@ -39,16 +39,32 @@ class CaseTimeout(Exception):
 # scratch space
 
 _SCRATCH = None
+_SCRATCH_PID = None
+
+
+def _rm_scratch(path, pid):
+    if os.getpid() == pid:
+        shutil.rmtree(path, True)
 
 
 def scratch():
-    """Per-process scratch dir under /dev/shm, removed at exit."""
-    global _SCRATCH
-    if _SCRATCH is None or not os.path.isdir(_SCRATCH) or not _SCRATCH.endswith(str(os.getpid())):
+    """Per-process scratch dir under /dev/shm.  The top-level process owns the tree and removes it at
+    exit; forked workers get a sub-directory of it."""
+    global _SCRATCH, _SCRATCH_PID
+    if _SCRATCH is not None and _SCRATCH_PID == os.getpid() and os.path.isdir(_SCRATCH):
+        return _SCRATCH
+    root = os.environ.get('VERIF_SCRATCH_ROOT')
+    if root and os.path.isdir(root) and os.environ.get('VERIF_SCRATCH_OWNER') != str(os.getpid()):
+        _SCRATCH = os.path.join(root, f'w{os.getpid()}')
+        os.makedirs(_SCRATCH, exist_ok=True)
+    else:
         base = '/dev/shm' if os.path.isdir('/dev/shm') else '/var/tmp'
         _SCRATCH = os.path.join(base, f'verif-{os.getpid()}')
         os.makedirs(_SCRATCH, exist_ok=True)
-        atexit.register(shutil.rmtree, _SCRATCH, True)
+        os.environ['VERIF_SCRATCH_ROOT'] = _SCRATCH
+        os.environ['VERIF_SCRATCH_OWNER'] = str(os.getpid())
+        atexit.register(_rm_scratch, _SCRATCH, os.getpid())
+    _SCRATCH_PID = os.getpid()
     return _SCRATCH
 
 
